@@ -83,7 +83,7 @@ def main():
      ],
      'checks': checks,
      'not_applicable': na,
-     'notes': 'Technique family: deterministic simulation with fault injection. 7 properties are claimed, 13 are not applicable (DESIGN.md sections 0 and 5). Exit codes: 0 held (open known findings printed as KNOWN-FINDING), 1 VIOLATION (with replay file), 2 harness error (never prints VIOLATION). 17 fix: commits in /repo repair the genuine defects the checks found (known_findings.json); one open finding, C03-F1. Regression suites: tools/mutants_all.sh, tools/seeded_all.sh (253 sub-agent breaking changes), tools/benign_all.sh (65 property-preserving refactors), tools/soak.sh.',
+     'notes': 'Technique family: deterministic simulation with fault injection. 7 properties are claimed, 13 are not applicable (DESIGN.md sections 0 and 5). Exit codes: 0 held (open known findings printed as KNOWN-FINDING), 1 VIOLATION (with replay file), 2 harness error (never prints VIOLATION). 17 fix: commits in /repo repair the genuine defects the checks found (known_findings.json); one open finding, C03-F1. Regression suites: tools/mutants_all.sh, tools/seeded_all.sh (267 sub-agent breaking changes), tools/benign_all.sh (65 property-preserving refactors), tools/soak.sh.',
     }
     with open(os.path.join(HERE, 'MANIFEST.json'), 'w') as fh:
         json.dump(man, fh, indent=1)
